@@ -1,4 +1,5 @@
 import G3d.DriverCore
+import G3d.SoftFloat
 import G3d.DriverAlgebra
 import G3d.DriverPrim
 import G3d.DriverPrimStats
@@ -30,6 +31,28 @@ def processLine (line : String) : Option String :=
 
 end
 
+instance : FloatIO (SF b64) where
+  ofHex s := if s == "nan" then SF.nan else SF.ofBits (parseHex s)
+  toHex x := match x with | SF.nan => "nan" | _ => natToHex x.toBits 16
+instance : FloatIO (SF b32) where
+  ofHex s := if s == "nan" then SF.nan else SF.ofBits (parseHex s)
+  toHex x := match x with | SF.nan => "nan" | _ => natToHex x.toBits 8
+
+/-- soft-float mode: the same model functions evaluated with the Lean-defined IEEE arithmetic `SF` (only the ops of
+    `round_error.rs` are meaningful there: no libm) -/
+partial def loopSF (h : IO.FS.Stream) (f32 : Bool) (n dis : Nat) : IO (Nat × Nat) := do
+  let line ← h.getLine
+  if line.isEmpty then return (n, dis)
+  let line := line.trimAscii.toString
+  if line.isEmpty || line.startsWith "#" || line.startsWith "consts" then loopSF h f32 n dis
+  else
+    let r := if f32 then processLine (α := SF b32) line else processLine (α := SF b64) line
+    match r with
+    | none => loopSF h f32 (n + 1) dis
+    | some msg => do
+        IO.println msg
+        loopSF h f32 (n + 1) (dis + 1)
+
 partial def loop (h : IO.FS.Stream) (f32 : Bool) (n dis : Nat) : IO (Nat × Nat) := do
   let line ← h.getLine
   if line.isEmpty then return (n, dis)
@@ -46,6 +69,10 @@ partial def loop (h : IO.FS.Stream) (f32 : Bool) (n dis : Nat) : IO (Nat × Nat)
 def driverMain (args : List String) : IO UInt32 := do
   if args.contains "primstats" then return (← primStatsMain args)
   let f32 := args.contains "f32"
+  if args.contains "sf" then
+    let (n, dis) ← loopSF (← IO.getStdin) f32 0 0
+    IO.println s!"TOTAL {n} DIS {dis}"
+    return 0
   let (n, dis) ← loop (← IO.getStdin) f32 0 0
   IO.println s!"TOTAL {n} DIS {dis}"
   return 0
